@@ -22,9 +22,9 @@ GROUPS = [
     ('ws',    [32, 9, 65, 10],                                   6, 8, [0]),
     ('hdr',   [42, 58, 63, 65, 49, 95, 32],                      5, 6, [1]),
     ('chr',   [65, 49, 95, 32],                                  6, 8, [2]),
-    ('dec',   [49, 43, 46, 69, 32, 65],                          5, 7, [3]),
+    ('dec',   [49, 43, 46, 69, 32, 65, 197],                     5, 7, [3]),      # 197: 'E' with bit 7 set
     ('suf',   [47, 65, 45, 49, 46, 32],                          5, 7, [4]),
-    ('ndc',   [35, 72, 81, 66, 49, 50, 55, 56, 57, 65, 71, 0],   4, 5, [5, 7]),
+    ('ndc',   [35, 72, 81, 66, 49, 50, 55, 56, 57, 65, 71, 0, 200, 209], 4, 5, [5, 7]),      # 200, 209: 'H', 'Q' with bit 7 set
     ('str',   [34, 39, 65, 128],                                 6, 8, [6]),
     ('blk',   [35, 48, 49, 50, 65],                              6, 7, [7, 5]),
     ('exp',   [40, 41, 65, 34, 10],                              5, 7, [8]),
